@@ -21,6 +21,10 @@ pub fn splitmix(mut z: u64) -> u64 {
     z ^ (z >> 31)
 }
 
+/// Set by the entry point when the monitors run under the Miri interpreter (~10^4 x slower): generators
+/// that have no `Ctx` at hand keep their rare, expensive classes small.
+pub static INTERPRETED: std::sync::atomic::AtomicBool = std::sync::atomic::AtomicBool::new(false);
+
 thread_local! {
     static TAPE: RefCell<Option<Vec<u8>>> = const { RefCell::new(None) };
 }
